@@ -226,7 +226,7 @@ def run(tier, seed):
         sc1 = mask_path_scenarios(rng, list(mc.TEMPLATES))
         sc2 = code_area_scenarios(rng)
         sc3 = elf_scenarios(rng)
-        sc4 = prot_history_scenarios(rng, 150 if q else 3000, 10 if q else 16) + exec_revoke_scenarios(rng) + abutting_scenarios(rng)
+        sc4 = prot_history_scenarios(rng, 150 if q else 15000, 10 if q else 16) + exec_revoke_scenarios(rng) + abutting_scenarios(rng)
         n1, s1, _ = mc.validate(sc1 + sc2 + sc4, wd, "perm", rep, 8 if q else 14)
         n3, s3, _ = mc.validate(sc3, wd, "elf", rep, 8)
         kinds = set()
